@@ -30,7 +30,7 @@ theorem readAt_line {file res : Bytes} {off R M : Nat} (h : LaidOut file off R M
     omega
   · rfl
 
-theorem readWholeLines_spec {file res : Bytes} {off R M : Nat} (h : LaidOut file off R M res) (hM : R ≤ M) :
+theorem readWholeLines_spec {file res : Bytes} {off R M : Nat} (h : LaidOut file off R M res) (_hM : R ≤ M) :
     ∀ (k L : Nat) (acc : ReadLog), (L + k) * R ≤ res.length →
       readWholeLines file (R : Int) ((M : Int) - (R : Int)) k ((off + M * L : Nat) : Int) acc
         = (((off + M * (L + k) : Nat) : Int),
